@@ -336,6 +336,10 @@ pub struct Cfg {
     pub focus: u8,
     /// event kinds of the entity streams (see hcommon::draw_script_fixed); 255 = symbolic
     pub script: [u8; 6],
+    /// multi-range instances of the quick tier: entity length and range bounds are constants
+    /// (len, a0, b0, a1, b1, a2, b2), so that serve's multipart-or-complete decision is a
+    /// constant branch; None = all numbers symbolic
+    pub nums: Option<[u64; 7]>,
 }
 
 pub const FOCUS_HEADERS: u8 = 1;
@@ -366,25 +370,41 @@ pub const IR_OTHER: u8 = 2; // "b"
 pub const IR_WEAK_SAME_OPAQUE: u8 = 3; // W/"a"
 pub const IR_DATE_EQ_LM: u8 = 4; // the served Last-Modified instant
 
-/// SCENARIO serve_*: EntDraw | ranges 3 x (a:u64 b:u64) | script(K_CALLS x K_EV x (kind:u8 n:u64))
+/// SCENARIO serve_*: EntDraw | ranges 3 x (a:u64 b:u64) | script(K_CALLS x K_EV x (kind:u8 n:u64)) | pm_fail:bool pm_len:u64
 pub fn serve_cfg(c: Cfg) {
     let mut d = draw_ent();
     d.etag = c.etag;
     d.has_mtime = c.has_mtime;
     d.nhdr = c.nhdr;
+    if let Some(k) = c.nums {
+        kani::assume(d.len == k[0]);
+        d.len = k[0];
+    }
     let mut rs = [(0u64, 0u64); 3];
     let mut i = 0;
     while i < 3 {
         let a: u64 = kani::any();
         let b: u64 = kani::any();
         rs[i] = (a, b);
+        if let Some(k) = c.nums {
+            kani::assume(a == k[1 + 2 * i] && b == k[2 + 2 * i]);
+            rs[i] = (k[1 + 2 * i], k[2 + 2 * i]);
+        }
         if i < c.nranges {
             // contract of range::parse (verified in range_h.rs)
-            kani::assume(a < b && b <= d.len);
+            kani::assume(rs[i].0 < rs[i].1 && rs[i].1 <= d.len);
         }
         i += 1;
     }
     draw_script_fixed(false, c.script);
+    // what the stand-in for prepare_multipart answers (multi-range instances only)
+    let pm_fail: bool = kani::any();
+    let pm_len: u64 = kani::any();
+    unsafe {
+        PM_FAIL = pm_fail;
+        PM_BODYLEN = pm_len;
+        PM_CALLS = 0;
+    }
     unsafe {
         PARSE_KIND = c.parse;
         PARSE_N = c.nranges;
@@ -507,8 +527,8 @@ pub fn serve_cfg(c: Cfg) {
 
 /// Expected bytes of one part header (numeral model: every number is a TOK-byte token).
 fn part_header_ok(lit: &[u8], a: u64, b: u64, len: u64, nhdr: u8) -> bool {
-    // "\r\n--B\r\nContent-Range: bytes " = 29 bytes
-    let p = 29;
+    // "\r\n--B\r\nContent-Range: bytes " = 7 + 21 = 28 bytes
+    let p = 28;
     if !(lit_at(lit, 0, b"\r\n--B\r\n") && lit_at(lit, 7, b"Content-") && lit_at(lit, 15, b"Range: ") && lit_at(lit, 22, b"bytes ")) {
         return false;
     }
@@ -557,27 +577,29 @@ fn check_multi(c: Cfg, d: &EntDraw, rs: &[(u64, u64); 3], resp: crate::body::Bod
         kani::cover!(true, "multi-range answered by the complete representation");
         return;
     }
-    // expected body length in 128 bits
     let with_hdrs = c.ir == IR_ABSENT;
-    let per_part_hdrs: u128 = if with_hdrs {
-        (if d.nhdr >= 1 { 26 } else { 0 }) + (if d.nhdr >= 2 { 22 } else { 0 })
-    } else {
-        0
-    };
-    if st == 413 {
-        // only when the multipart body length cannot be expressed: bound it from above
-        let mut total: u128 = 9;
-        let mut i = 0;
-        while i < 3 {
-            if i < n {
-                total += (rs[i].1 - rs[i].0) as u128 + 33 + 3 * TOK as u128 + 2 + per_part_hdrs;
-            }
-            i += 1;
+    // serve consulted prepare_multipart once, with the resolver's ranges in order, the entity
+    // length, and the entity's headers exactly when there is no If-Range
+    hdr_assert!(c, unsafe { PM_CALLS } == 1, "C06: multipart response not prepared exactly once");
+    hdr_assert!(c, unsafe { PM_N } == n && unsafe { PM_LEN } == d.len, "C06: multipart prepared for a different number of ranges or entity length");
+    let mut j = 0;
+    while j < 3 {
+        if j < n {
+            hdr_assert!(c, unsafe { PM_RANGES[j] } == rs[j], "C06: parts are not the requested ranges in request order");
         }
-        hdr_assert!(c, total > u64::MAX as u128, "C03/C13: 413 although the multipart body fits in 64 bits");
+        j += 1;
+    }
+    hdr_assert!(c, unsafe { PM_INCL } == with_hdrs, "C05/C06: entity headers in the parts do not follow the If-Range rule");
+    if with_hdrs {
+        hdr_assert!(c, unsafe { PM_INCL_N } == d.nhdr as usize, "C06/C14: parts do not carry exactly the entity's headers");
+    }
+    if st == 413 {
+        // only when the multipart length cannot be expressed (decided by prepare_multipart: prep_unit_*)
+        hdr_assert!(c, unsafe { PM_FAIL }, "C03/C13: 413 although the multipart body fits in 64 bits");
         body_check!(c, resp, check_small_body(resp));
         return;
     }
+    hdr_assert!(c, !unsafe { PM_FAIL }, "C13: multipart length overflow not answered 413");
     hdr_assert!(c, st == 206, "C03: multi-range request answered with an unexpected status");
     hdr_assert!(c, !forbidden, "C03: multipart although the ranges alone total the entity length or more");
     hdr_assert!(c, sn.count[S_CONTENT_RANGE] == 0, "C06: top-level Content-Range on a multipart response");
@@ -585,98 +607,44 @@ fn check_multi(c: Cfg, d: &EntDraw, rs: &[(u64, u64); 3], resp: crate::body::Bod
     hdr_assert!(c, bytes_eq(sn.val[S_CONTENT_TYPE].unwrap(), b"multipart/byteranges; boundary=B"), "C06: Content-Type is not multipart/byteranges with the boundary used in the body");
     hdr_assert!(c, sn.count[S_CONTENT_LENGTH] == 1, "C01: multipart 206 without Content-Length");
     let cl = parse_whole_decimal(sn.val[S_CONTENT_LENGTH].unwrap());
-    hdr_assert!(c, cl.is_some(), "C01: malformed Content-Length");
-    let cl = cl.unwrap();
+    hdr_assert!(c, cl == Some(unsafe { PM_BODYLEN }), "C01: Content-Length is not the multipart body length");
+    let cl = unsafe { PM_BODYLEN };
     if c.method == M_HEAD {
         body_check!(c, resp, check_empty_body(resp));
         return;
     }
-    body_check!(c, resp, expect_kind!(resp, Multipart, bd => check_multi_body(c, d, rs, bd, cl, with_hdrs)))
+    expect_kind!(resp, Multipart, bd => check_multi_initial(c, d, rs, bd, cl))
 }
 
-fn check_multi_body(c: Cfg, d: &EntDraw, rs: &[(u64, u64); 3], body: crate::body::Body<Chunk, HErr>, cl: u64, with_hdrs: bool) {
+/// The MultipartStream serve() hands to the client, before the first poll: it must be the
+/// initial state of the state machine verified step by step in `mp_step` (INV with s = 0), with
+/// the part headers C06 demands and the length announced in Content-Length (C01).
+fn check_multi_initial(c: Cfg, d: &EntDraw, rs: &[(u64, u64); 3], body: crate::body::Body<Chunk, HErr>, cl: u64) {
     let n = c.nranges;
-    let mut body = std::pin::pin!(body);
-    let mut dr = Drain::new();
-    // per part: header + up to K_EV+1 data polls (+ pendings) ; + trailer + end + 2 extra polls
-    drain(&mut body, MP_POLLS, Some(cl), &mut dr);
-    assert!(dr.hint_violations == 0, "C12: multipart size hint not exact");
-    assert!(dr.eos_violations == 0, "C12: data or error after is_end_stream()");
-    assert!(!dr.data_after_terminal, "C20: data after the body terminated");
-    assert!(!dr.overflow_total && dr.total <= cl, "C01: multipart body delivered more than announced");
-    if dr.ended && !dr.errored {
-        assert!(dr.total == cl, "C01: multipart body ended cleanly with a different length than announced");
-        // structure: for each part a literal header block, then entity bytes a..b; finally the
-        // closing delimiter. One pass over the polls with scalar running state.
-        let hn = if with_hdrs { d.nhdr } else { 0 };
-        let mut part = 0usize; // number of part headers seen
-        let mut pos = 0u64; // next expected entity position inside the current part
-        let mut end = 0u64; // end of the current part
-        let mut closed = false;
-        let mut k = 0;
-        while k < MAX_POLLS {
-            if k < MP_POLLS {
-                let f = dr.ev[k];
-                if f.kind == FR_LIT {
-                    assert!(!closed, "C06: data after the closing delimiter");
-                    assert!(part == 0 || pos == end, "C06: part body is not exactly the entity bytes a..=b");
-                    assert!(part < n, "C06: more parts than requested ranges");
-                    let (a, b) = if part == 0 { rs[0] } else if part == 1 { rs[1] } else { rs[2] };
-                    let ok = match &dr.lit[k] {
-                        Some(v) => part_header_ok(&v[..], a, b, d.len, hn),
-                        None => false,
-                    };
-                    assert!(ok, "C06: part header is not delimiter + Content-Range a-b/L + entity headers + blank line");
-                    part += 1;
-                    pos = a;
-                    end = b;
-                } else if f.kind == FR_ENT {
-                    assert!(!closed && part >= 1, "C06: entity bytes outside a part");
-                    assert!(f.a == pos, "C06: entity bytes out of place inside a part");
-                    pos = pos.wrapping_add(f.b);
-                } else if f.kind == FR_STAT {
-                    assert!(!closed, "C06: two closing delimiters");
-                    assert!(part == n && pos == end, "C06: closing delimiter before all parts were complete");
-                    let ok = match dr.stat[k] {
-                        Some(t) => bytes_eq(t, b"\r\n--B--\r\n"),
-                        None => false,
-                    };
-                    assert!(ok, "C06: closing delimiter is not --B--");
-                    closed = true;
-                }
-            }
-            k += 1;
+    let hint = http_body::Body::size_hint(&body);
+    assert!(hint.lower() == cl && hint.upper() == Some(cl), "C12: multipart size hint differs from Content-Length before the first poll");
+    let s = match body.0 {
+        crate::body::BodyStream::Multipart(s) => s,
+        other => {
+            std::mem::forget(other);
+            return;
         }
-        assert!(closed, "C06: closing delimiter missing");
-        let mut ci = 0;
-        while ci < 3 {
-            if ci < n {
-                assert!(unsafe { CALL_LOG[ci] } == rs[ci], "C06: entity asked for a different range than the part announces");
-            }
-            ci += 1;
-        }
-        assert!(unsafe { CALLS } == n, "C06: number of get_range calls differs from the number of parts");
-        kani::cover!(true, "multipart body ended cleanly");
-    }
-    let script_err = unsafe {
-        let mut e = false;
-        let mut ci = 0;
-        while ci < K_CALLS {
-            let mut k = 0;
-            while k < K_EV {
-                if SCRIPTS[ci][k].kind % 3 == EV_ERR {
-                    e = true;
-                }
-                k += 1;
-            }
-            ci += 1;
-        }
-        e
     };
-    assert!(dr.terminal(), "multipart body did not terminate within the poll bound");
-    if !script_err {
-        assert!(dr.ended && !dr.errored, "C01: contract-honouring entity but the multipart body failed");
+    assert!(s.state == 0 && s.cur.is_none(), "C06: multipart body does not start with the first part's header");
+    assert!(s.remaining == cl, "C01: Content-Length differs from the multipart body's own length");
+    assert!(s.ranges.len() == n && s.part_headers.len() == n, "C06: number of parts differs from the number of requested ranges");
+    let mut j = 0;
+    while j < 3 {
+        if j < n {
+            let (a, b) = rs[j];
+            assert!(s.ranges[j].start == a && s.ranges[j].end == b, "C06: a part covers a different range than requested (or parts are reordered)");
+            let first = if j == 0 { b'0' } else if j == 1 { b'1' } else { b'2' };
+            assert!(s.part_headers[j].len() == 2 && s.part_headers[j][1] == first, "C06: part headers are not the prepared ones in order");
+        }
+        j += 1;
     }
+    kani::cover!(true, "multipart initial state checked");
+    std::mem::forget(s);
 }
 
 /// two parts: 2 x (header + K_EV events + tail chunk) + trailer + end + 2 polls past the end
@@ -695,6 +663,147 @@ pub fn stub_prepare_multipart(
     std::mem::forget(res);
     Err(MultipartLenOverflowError)
 }
+
+// ---------------------------------------------------------------------------------------
+// Decomposition of multi-range responses: inside serve() `prepare_multipart` is replaced by a
+// recording stand-in (what serve passes in and what it does with the result is checked in the
+// serve_multi_* instances); the real `prepare_multipart` is verified on its own in
+// `prep_unit_*`; the body it feeds is the state machine of `mp_step_*`.
+pub static mut PM_CALLS: u32 = 0;
+pub static mut PM_N: usize = 0;
+pub static mut PM_RANGES: [(u64, u64); 3] = [(0, 0); 3];
+pub static mut PM_LEN: u64 = 0;
+pub static mut PM_INCL: bool = false;
+pub static mut PM_INCL_N: usize = 0;
+/// drawn by serve_cfg: whether the stand-in reports the 64-bit overflow, and the length it returns
+pub static mut PM_FAIL: bool = false;
+pub static mut PM_BODYLEN: u64 = 0;
+
+pub fn stub_prepare_multipart_rec(
+    mut res: http::response::Builder,
+    ranges: &[Range<u64>],
+    len: u64,
+    include_entity_headers: Option<http::header::HeaderMap>,
+) -> Result<(http::response::Builder, Vec<Vec<u8>>, u64), MultipartLenOverflowError> {
+    let mut ph: Vec<Vec<u8>> = Vec::with_capacity(3);
+    unsafe {
+        PM_CALLS += 1;
+        PM_N = ranges.len();
+        let mut j = 0;
+        while j < 3 {
+            if j < ranges.len() {
+                PM_RANGES[j] = (ranges[j].start, ranges[j].end);
+                let mut v = Vec::with_capacity(2);
+                v.push(b'H');
+                v.push(if j == 0 { b'0' } else if j == 1 { b'1' } else { b'2' });
+                ph.push(v);
+            }
+            j += 1;
+        }
+        PM_LEN = len;
+        PM_INCL = include_entity_headers.is_some();
+        PM_INCL_N = match &include_entity_headers {
+            Some(h) => h.len(),
+            None => 0,
+        };
+        std::mem::forget(include_entity_headers);
+        if PM_FAIL {
+            std::mem::forget(res);
+            std::mem::forget(ph);
+            return Err(MultipartLenOverflowError);
+        }
+        res = res.header(header::CONTENT_LENGTH, unsafe_fmt_ascii_val!(MAX_DECIMAL_U64_BYTES, "{}", PM_BODYLEN));
+        res = res.header(header::CONTENT_TYPE, HeaderValue::from_static("multipart/byteranges; boundary=B"));
+        res = res.status(StatusCode::PARTIAL_CONTENT);
+        Ok((res, ph, PM_BODYLEN))
+    }
+}
+
+/// The real `prepare_multipart`, alone (C01, C06, C13).
+/// SCENARIO prep_unit_*: len:u64 | 3 x (a:u64 b:u64)
+pub fn prep_unit(n: usize, incl: bool, nhdr: u8) {
+    let len: u64 = kani::any();
+    let mut rs = [(0u64, 0u64); 3];
+    let mut ranges: Vec<Range<u64>> = Vec::with_capacity(3);
+    let mut j = 0;
+    while j < 3 {
+        let a: u64 = kani::any();
+        let b: u64 = kani::any();
+        rs[j] = (a, b);
+        if j < n {
+            kani::assume(a < b && b <= len);
+            ranges.push(a..b);
+        }
+        j += 1;
+    }
+    let include = if incl {
+        let mut h = http::header::HeaderMap::new();
+        if nhdr >= 1 {
+            h.insert(header::CONTENT_TYPE, HeaderValue::from_static(EH0.1));
+        }
+        if nhdr >= 2 {
+            h.insert(header::CONTENT_LANGUAGE, HeaderValue::from_static(EH1.1));
+        }
+        Some(h)
+    } else {
+        None
+    };
+    let hn = if incl { nhdr } else { 0 };
+    let per_part: u128 = 32 + 3 * TOK as u128 + 2 + (if hn >= 1 { 26 } else { 0 }) + (if hn >= 2 { 22 } else { 0 });
+    let mut total: u128 = 9;
+    let mut j = 0;
+    while j < 3 {
+        if j < n {
+            total += (rs[j].1 - rs[j].0) as u128 + per_part;
+        }
+        j += 1;
+    }
+    match prepare_multipart(http::Response::builder(), &ranges[..], len, include) {
+        Err(e) => {
+            std::mem::forget(e);
+            assert!(total > u64::MAX as u128, "C03/C13: multipart refused although its length fits in 64 bits");
+        }
+        Ok((res, ph, body_len)) => {
+            assert!(total <= u64::MAX as u128, "C01: multipart length wrapped around 64 bits");
+            assert!(body_len as u128 == total, "C01: announced multipart length is not the sum of part headers, part bodies and the closing delimiter");
+            assert!(ph.len() == n, "C06: number of part headers differs from the number of ranges");
+            let mut j = 0;
+            while j < 3 {
+                if j < n {
+                    assert!(part_header_ok(&ph[j][..], rs[j].0, rs[j].1, len, hn), "C06: part header is not delimiter + Content-Range a-b/L + entity headers + blank line");
+                }
+                j += 1;
+            }
+            let resp = res.body(()).unwrap();
+            assert!(resp.status().as_u16() == 206, "C06: multipart response is not a 206");
+            let (parts, _) = resp.into_parts();
+            let sn = snap(&parts.headers);
+            assert!(sn.count[S_CONTENT_LENGTH] == 1 && parse_whole_decimal(sn.val[S_CONTENT_LENGTH].unwrap()) == Some(body_len), "C01: Content-Length of the multipart response is not its body length");
+            assert!(sn.count[S_CONTENT_TYPE] == 1 && bytes_eq(sn.val[S_CONTENT_TYPE].unwrap(), b"multipart/byteranges; boundary=B"), "C06: Content-Type is not multipart/byteranges with the boundary used in the body");
+            assert!(sn.count[S_CONTENT_RANGE] == 0, "C06: top-level Content-Range on a multipart response");
+            kani::cover!(true, "multipart prepared");
+            std::mem::forget(parts);
+            std::mem::forget(ph);
+        }
+    }
+    std::mem::forget(ranges);
+}
+
+macro_rules! prep_harness {
+    ($name:ident, $n:expr, $incl:expr, $nhdr:expr) => {
+        #[kani::proof]
+        #[kani::unwind(14)]
+        #[kani::stub(<u64 as std::fmt::Display>::fmt, hc::stub_u64_display)]
+        pub fn $name() {
+            prep_unit($n, $incl, $nhdr)
+        }
+    };
+}
+prep_harness!(prep_unit_n2_noincl, 2, false, 0);
+prep_harness!(prep_unit_n2_h0, 2, true, 0);
+prep_harness!(prep_unit_n2_h1, 2, true, 1);
+prep_harness!(prep_unit_n2_h2, 2, true, 2);
+prep_harness!(prep_unit_n3_h1, 3, true, 1);
 
 macro_rules! serve_harness_nomulti {
     ($name:ident, $cfg:expr) => {
@@ -717,6 +826,7 @@ macro_rules! serve_harness {
         #[kani::stub(std::time::SystemTime::now, hc::stub_now)]
         #[kani::stub(crate::range::parse, stub_parse)]
         #[kani::stub(<u64 as std::fmt::Display>::fmt, hc::stub_u64_display)]
+        #[kani::stub(crate::serving::prepare_multipart, stub_prepare_multipart_rec)]
         pub fn $name() {
             serve_cfg($cfg)
         }
@@ -802,6 +912,263 @@ pub fn precond_case(
     kani::cover!(exp_nm && !exp_pf, "not modified");
     kani::cover!(!exp_nm && !exp_pf, "continue");
 }
+
+// =======================================================================================
+// MultipartStream as a state machine: ONE poll from an arbitrary state that satisfies the
+// invariant below (C01, C06, C12, C20 for multipart bodies). Whole drains through serve()
+// did not finish symbolic execution (> 20 min, see DESIGN.md section 5b); the initial state
+// serve() hands over is checked in the `_hd` multi instances (check_multi_initial).
+//
+// INV(state s, i = s >> 1, n parts, H_j = len(part_headers[j]), L_j = b_j - a_j, T = 9):
+//   s = 2i   (i < n): cur = None, part_headers[j] intact for j >= i,
+//                     remaining = sum_{j >= i} (H_j + L_j) + T
+//   s = 2i+1 (i < n): cur = None (stream not opened yet, x = L_i) or cur = ExactLen{remaining: x}
+//                     over the entity stream positioned at b_i - x,
+//                     remaining = x + sum_{j > i} (H_j + L_j) + T
+//   s = 2n: remaining = T          s = 2n+1: remaining = 0, cur = None
+// By induction over polls: the frames are header_0, bytes a_0..b_0, header_1, ..., trailer in
+// this order and position (C06), their lengths sum to the initial `remaining`, which serve()
+// announces as Content-Length (C01), the exact size hint is `remaining` at every step (C12),
+// and the end / fused state is absorbing (C20).
+
+#[derive(Clone, Copy)]
+pub struct MpCfg {
+    pub n: usize,
+    pub state: usize,
+    /// the current part's stream is already open (odd states below 2n only)
+    pub cur: bool,
+    /// what the entity stream does when polled: EV_PENDING / EV_CHUNK / EV_ERR
+    pub ev: u8,
+    /// restrict to range sets for which serve() must answer multipart (replayable end to end)
+    pub need_multi: bool,
+}
+
+fn mp_header(j: usize, hl: usize, taken: bool) -> Vec<u8> {
+    if taken {
+        return Vec::new();
+    }
+    let mut v = Vec::with_capacity(8);
+    let first = if j == 0 { b'0' } else if j == 1 { b'1' } else { b'2' };
+    v.extend_from_slice(&[first, b'h', b'e', b'a', b'd', b'e', b'r', b'\n']);
+    v.truncate(hl);
+    v
+}
+
+/// SCENARIO mp_step_*: len:u64 | 3 x (a:u64 b:u64) | 3 x hlen:usize | x:u64 | ev_n:u64
+pub fn mp_step(c: MpCfg) {
+    let len: u64 = kani::any();
+    let mut rs = [(0u64, 0u64); 3];
+    let mut j = 0;
+    while j < 3 {
+        let a: u64 = kani::any();
+        let b: u64 = kani::any();
+        rs[j] = (a, b);
+        if j < c.n {
+            kani::assume(a < b && b <= len);
+        }
+        j += 1;
+    }
+    let mut hl = [0usize; 3];
+    let mut j = 0;
+    while j < 3 {
+        let h: usize = kani::any();
+        kani::assume(h >= 1 && h <= 8);
+        hl[j] = h;
+        j += 1;
+    }
+    let x: u64 = kani::any();
+    let ev_n: u64 = kani::any();
+    if c.need_multi {
+        kani::assume(oracle::multipart_required(&rs[..c.n], len));
+    }
+    let n = c.n;
+    let i = c.state >> 1;
+    let odd = (c.state & 1) == 1;
+    let li = if i < n { rs[i].1 - rs[i].0 } else { 0 };
+    let cur_open = c.cur && odd && i < n;
+    if cur_open {
+        kani::assume(x <= li);
+    }
+    let xeff = if cur_open { x } else { li };
+    // remaining per INV, in 128 bits; prepare_multipart guarantees the total fits in u64
+    let mut future: u128 = 9;
+    let mut j = 0;
+    while j < 3 {
+        if j < n && j > i {
+            future += hl[j] as u128 + (rs[j].1 - rs[j].0) as u128;
+        }
+        j += 1;
+    }
+    let rem128: u128 = if c.state == 2 * n + 1 {
+        0
+    } else if c.state == 2 * n {
+        9
+    } else if odd {
+        xeff as u128 + future
+    } else {
+        hl[i] as u128 + li as u128 + future
+    };
+    kani::assume(rem128 <= u64::MAX as u128);
+    let remaining = rem128 as u64;
+
+    let mut part_headers: Vec<Vec<u8>> = Vec::with_capacity(3);
+    let mut ranges: Vec<std::ops::Range<u64>> = Vec::with_capacity(3);
+    let mut j = 0;
+    while j < 3 {
+        if j < n {
+            part_headers.push(mp_header(j, hl[j], j < i || (j == i && odd)));
+            ranges.push(rs[j].0..rs[j].1);
+        }
+        j += 1;
+    }
+    unsafe {
+        SCRIPTS[0] = [Ev { kind: c.ev, n: ev_n }; K_EV];
+        FAULTY = false;
+        CALLS = 0;
+    }
+    let ent = HEnt { len, etag: 0, etag_bytes: None, mtime: None, nhdr: 0 };
+    let cur = if cur_open {
+        Some(crate::body::ExactLenStream::new(x, script_stream_at(rs[i].1 - x, rs[i].1, 0)))
+    } else {
+        None
+    };
+    let mut s: MultipartStream<Chunk, HErr> = MultipartStream { cur, state: c.state, part_headers, ranges, entity: Box::new(ent), remaining };
+
+    // ---- the step (on the stream itself: inside the Body enum the state is no longer a
+    // constant for the model checker and the `loop` in poll_next unrolls to the bound)
+    let mut cx = std::task::Context::from_waker(std::task::Waker::noop());
+    let r = futures_core::Stream::poll_next(std::pin::Pin::new(&mut s), &mut cx);
+    let state2 = s.state;
+    let rem2 = s.remaining;
+    let cur2_rem: Option<u64> = match s.cur.take() {
+        Some(e) => {
+            let b: crate::body::Body<Chunk, HErr> = crate::body::Body(crate::body::BodyStream::ExactLen(e));
+            let h = http_body::Body::size_hint(&b).lower();
+            std::mem::forget(b);
+            Some(h)
+        }
+        None => None,
+    };
+    let mut hl2 = [0usize; 3];
+    let mut j = 0;
+    while j < 3 {
+        if j < n {
+            hl2[j] = s.part_headers[j].len();
+        }
+        j += 1;
+    }
+    // C12 on the post-state, through the real Body wrapper (the pre-state of the next step)
+    let body: crate::body::Body<Chunk, HErr> = crate::body::Body(crate::body::BodyStream::Multipart(s));
+    let hint = http_body::Body::size_hint(&body);
+    let eos2 = http_body::Body::is_end_stream(&body);
+    std::mem::forget(body);
+    assert!(hint.lower() == rem2 && hint.upper() == Some(rem2), "C12: multipart size hint is not the stream's count of bytes still to come");
+    assert!(!eos2 || state2 == 2 * n + 1, "C12: is_end_stream() before the multipart body was complete");
+    let calls = unsafe { CALLS };
+    // what the entity stream does at this point: nothing left -> end; else the scripted event
+    let stream_ends = odd && i < n && xeff == 0;
+    let after_part = stream_ends; // continues with the next header or the trailer
+    let ni = if after_part { i + 1 } else { i };
+    let mut delivered: u64 = 0;
+    if c.state == 2 * n + 1 {
+        match r {
+            Poll::Ready(None) => {}
+            other => {
+                std::mem::forget(other);
+                assert!(false, "C20: a finished or failed multipart body produced something");
+            }
+        }
+        assert!(state2 == c.state && rem2 == 0 && cur2_rem.is_none(), "C20: the end state of the multipart body is not absorbing");
+    } else if c.state == 2 * n || (after_part && ni == n) {
+        // trailer
+        match r {
+            Poll::Ready(Some(Ok(Chunk::Stat(t)))) => {
+                assert!(bytes_eq(t, b"\r\n--B--\r\n"), "C06: closing delimiter is not --B--");
+                delivered = t.len() as u64;
+            }
+            other => {
+                std::mem::forget(other);
+                assert!(false, "C06: closing delimiter expected after the last part");
+            }
+        }
+        assert!(state2 == 2 * n + 1 && cur2_rem.is_none(), "C06/C20: state after the closing delimiter is not the end state");
+    } else if !odd || after_part {
+        // header of part ni
+        match r {
+            Poll::Ready(Some(Ok(Chunk::Lit(v)))) => {
+                let first = if ni == 0 { b'0' } else if ni == 1 { b'1' } else { b'2' };
+                assert!(v.len() == hl[ni] && v[0] == first, "C06: not the header block of the next part (order of parts)");
+                delivered = v.len() as u64;
+                std::mem::forget(v);
+            }
+            other => {
+                std::mem::forget(other);
+                assert!(false, "C06: part header expected before the part's bytes");
+            }
+        }
+        assert!(state2 == 2 * ni + 1 && cur2_rem.is_none(), "C06: state after a part header is not 'send this part's body'");
+    } else {
+        // entity bytes of part i: the scripted event
+        if !cur_open {
+            assert!(calls == 1 && unsafe { CALL_LOG[0] } == rs[i], "C06: entity asked for a different range than the part announces");
+        } else {
+            assert!(calls == 0, "C01/C06: the part's stream was opened a second time (bytes would be delivered twice)");
+        }
+        match r {
+            Poll::Pending => {
+                assert!(c.ev == EV_PENDING, "C01: Pending although the entity stream delivered something (it is lost)");
+                assert!(state2 == c.state && cur2_rem == Some(xeff), "C01/C06: a Pending poll lost the current part's stream or its position");
+            }
+            Poll::Ready(Some(Ok(d))) => {
+                assert!(c.ev == EV_CHUNK, "C06: data although the entity stream had none");
+                match d {
+                    Chunk::Ent { start, len: l } => {
+                        let want = if ev_n <= xeff { ev_n } else { xeff };
+                        assert!(start == rs[i].1 - xeff && l == want, "C06: entity bytes out of place inside a part");
+                        delivered = l;
+                    }
+                    o => {
+                        std::mem::forget(o);
+                        assert!(false, "C06: entity bytes expected inside a part");
+                    }
+                }
+                assert!(state2 == c.state && cur2_rem == Some(xeff - delivered), "C01: bytes of the current part not accounted for");
+            }
+            Poll::Ready(Some(Err(e))) => {
+                std::mem::forget(e);
+                assert!(c.ev == EV_ERR, "C01: contract-honouring entity but the multipart body failed");
+                assert!(state2 == 2 * n + 1 && cur2_rem.is_none() && rem2 == 0, "C20: the multipart body is not fused after an entity error");
+            }
+            Poll::Ready(None) => assert!(false, "C01: multipart body ended before all parts were delivered"),
+        }
+    }
+    let failed = c.ev == EV_ERR && odd && i < n && !stream_ends && c.state < 2 * n;
+    if !failed {
+        assert!(rem2 == remaining - delivered, "C01/C12: `remaining` is not reduced by exactly the frame's length");
+    }
+    // untouched headers stay untouched (each part's header is sent once, later)
+    let mut j = 0;
+    while j < 3 {
+        if j < n && j > ni && !failed {
+            assert!(hl2[j] == hl[j], "C06: a later part's header was consumed early");
+        }
+        j += 1;
+    }
+    kani::cover!(true, "post-state reached");
+}
+
+macro_rules! mp_harness {
+    ($name:ident, $cfg:expr) => {
+        #[kani::proof]
+        #[kani::unwind(10)]
+        pub fn $name() {
+            mp_step($cfg)
+        }
+    };
+}
+
+#[path = "mp_gen.rs"]
+pub mod mpgen;
 
 #[path = "precond_gen.rs"]
 pub mod pgen;
